@@ -125,10 +125,14 @@ def run(prop, tier, seed, replay):
                     n = rng.choice([2, 3]) * c + rng.choice([1, c - 1])
                 fmt = ["fits", "hdf5", "parquet"][fi % 3]
                 uniform_groups = None
-                if fmt == "parquet" and (fi // 3) % 2 == 1:
+                if fmt == "parquet" and (fi // 3) % 4 in (1,):
                     # stratum: many equal row groups, chunk boundaries INSIDE row groups for many chunks in a row
                     c, uniform_groups = rng.choice([3, 4, 7]), rng.choice([5, 10])
                     n = 6 * uniform_groups + rng.choice([0, 1])
+                if fmt == "parquet" and (fi // 3) % 4 == 3:
+                    # stratum: ONE tiny row group before larger ones, chunks spanning several groups
+                    c = rng.choice([6, 7, 9])
+                    n = 3 * c + rng.choice([1, 2])
                 nprng = np.random.default_rng(rng.randrange(2 ** 32))
                 ra, dec = nprng.uniform(0, 1, n), nprng.uniform(0, 1, n)
                 path = root / f"f{fi}.{fmt}"
@@ -142,13 +146,18 @@ def run(prop, tier, seed, replay):
                     tab = pa.table({"ra": ra, "dec": dec})
                     if uniform_groups is not None:
                         pq.write_table(tab, path, row_group_size=uniform_groups)
-                    elif rng.random() < 0.5:
+                    elif (fi // 3) % 4 == 0:
                         pq.write_table(tab, path, row_group_size=rng.choice([1, 2, 5, 100]))
-                    else:           # row groups of differing sizes, a large one first
+                    else:           # row groups of differing sizes: a large one first, or a tiny one before large ones
+                        tiny_first = (fi // 3) % 4 == 3
+                        ck.count("parquet:tiny-first" if tiny_first else "parquet:large-first")
                         with pq.ParquetWriter(path, tab.schema) as wr:
                             at, first = 0, True
                             while at < len(tab):
-                                k = rng.choice([7, 11]) if first else rng.choice([1, 2, 3])
+                                if tiny_first:
+                                    k = 1 if first else rng.choice([4, 5])
+                                else:
+                                    k = rng.choice([7, 11]) if first else rng.choice([1, 2, 3])
                                 first = False
                                 wr.write_table(tab.slice(at, k))
                                 at += k
@@ -165,6 +174,25 @@ def run(prop, tier, seed, replay):
                         requested.append(i)
                         return out
                     pq.ParquetFile.read_row_group = logged_read
+                    # every other way of pulling rows out of the file counts as a request for the row groups it touches
+                    orig_many, orig_all, orig_iter = (pq.ParquetFile.read_row_groups, pq.ParquetFile.read,
+                                                      pq.ParquetFile.iter_batches)
+
+                    def logged_many(self_, groups, *a, **k):
+                        groups = list(groups)
+                        out = orig_many(self_, groups, *a, **k)
+                        requested.extend(groups)
+                        return out
+
+                    def logged_all(self_, *a, **k):
+                        requested.extend(range(self_.metadata.num_row_groups))
+                        return orig_all(self_, *a, **k)
+
+                    def logged_iter(self_, *a, row_groups=None, **k):
+                        requested.extend(range(self_.metadata.num_row_groups) if row_groups is None else list(row_groups))
+                        return orig_iter(self_, *a, row_groups=row_groups, **k)
+                    pq.ParquetFile.read_row_groups, pq.ParquetFile.read, pq.ParquetFile.iter_batches = (
+                        logged_many, logged_all, logged_iter)
                 try:
                     with new_filereader(path, ra_name="ra", dec_name="dec", chunksize=c) as reader:
                         for _ in range(2):                       # two passes over the same reader
@@ -188,6 +216,9 @@ def run(prop, tier, seed, replay):
                             rows_ok = rows_ok and np.array_equal(got, np.deg2rad(ra))
                 finally:
                     pq.ParquetFile.read_row_group = orig_read
+                    if fmt == "parquet":
+                        pq.ParquetFile.read_row_groups, pq.ParquetFile.read, pq.ParquetFile.iter_batches = (
+                            orig_many, orig_all, orig_iter)
                 path.unlink()
                 rep = {"format": fmt, "n": n, "chunksize": c}
                 if lazy_bad:
